@@ -914,7 +914,8 @@ def _dim_link(kind, good=True):
 
 def _linked_through(value, frame_units=None):
     """the current entity is the data object some dimension is linked to: assign through that dimension
-    (frame_units: only when the linked frame has / has no units - without units the assignment is refused)"""
+    (frame_units: only when the linked frame has / has no units - either way the assignment is a write to the frame's
+    units; on a frame without units it used to be refused with TypeError, as was None: repaired in nixio)"""
     def f(g):
         c = [(o, k) for o in g.alive("data_array") for k, d in enumerate(g.dims(o)) if d["link"] == g.cur]
         if not c or (frame_units is not None and bool(g.ents[g.cur].get("has_units")) != frame_units):
@@ -946,7 +947,7 @@ DIM_CALLS = {
     ],
     "data_frame": [
         ("unit", "DimensionLink", "good", _linked_through(lambda g: g.rng.choice(["mV", "s", "kHz", "ms"]), True)),
-        ("unit", "DimensionLink", "early", _linked_through("mV", False)),
+        ("unit", "DimensionLink", "good", _linked_through("mV", False)),
         ("label", "DimensionLink", "early", _linked_through(lambda g: g.word())),
     ],
 }
@@ -1205,6 +1206,8 @@ class Gen:
             self.ents[e]["unsorted"] = True
         if via is None and inp == "good" and kind == "data_frame" and m == "units":
             self.ents[e]["has_units"] = True
+        if via == "DimensionLink" and inp == "good" and kind == "data_frame" and m == "unit":
+            self.ents[e]["has_units"] = True       # (a frame without units gets them with the first unit written)
         if via is None and inp == "good" and kind == "data_array":
             if m == "delete_dimensions":
                 self.ents[e]["dimlist"] = []
